@@ -1,16 +1,23 @@
-// Adapter for specs/Mempool (C22, C26, C28): replays model paths on a real in-process regtest node: real signed transactions submitted
-// through ChainstateManager::ProcessTransaction, real blocks connected / invalidated / reorganised, the real CTxMemPool projected.
-//   mempool measure <ignored> <universe.json>          prints one line per universe transaction: {"fee":..,"vsize":..,"weight":..}
+// Adapter for specs/Mempool (C22, C26, C27, C28, C29, C55): replays model paths on a real in-process regtest node: real signed
+// transactions submitted through ChainstateManager::ProcessTransaction / ProcessNewPackage, real blocks connected / invalidated /
+// reorganised, DumpMempool / LoadMempool between two nodes on the same chain, the real CTxMemPool projected.
+//   mempool measure <ignored> <universe.json>          one line per universe transaction: {"fee","vsize","weight","mem","dust":[..]}
 //   mempool replay|strict <tests.ndjson> <universe.json>
-// universe.json: {universe: [tx...], h0, basedt, base: [{v,h}...], opts: {minrelay, incr, expiry, maxrepl, maxcluster}} as printed
-// by the specification (module MU_*).
+//   mempool pkgtable <rows.ndjson> <universe.json>     E4: IsWellFormedPackage / IsChildWithParents / IsTopoSortedPackage / IsConsistentPackage
+//   mempool loadfuzz <tests.ndjson> <universe.json>    C55: runs the steps of each test, then loads seeded byte-flipped copies of the dump
+// universe.json: {universe: [tx...], h0, basedt, base: [{v,h,cls?}...], opts: {minrelay, incr, expiry, maxrepl, maxcluster,
+// std?, maxclsize?, maxmempool?}} as printed by the specification (module MU_*).
 #include <chainsim.h>
 #include <consensus/tx_check.h>
 #include <consensus/tx_verify.h>
 #include <kernel/mempool_entry.h>
+#include <node/mempool_persist.h>
+#include <policy/packages.h>
 #include <policy/policy.h>
 #include <policy/rbf.h>
+#include <streams.h>
 #include <util/moneystr.h>
+#include <util/obfuscation.h>
 using namespace vfh;
 
 namespace {
@@ -22,19 +29,50 @@ struct Base {
 Base g_base;
 
 std::string PerKvB(int64_t sat) { return FormatMoney(sat); }   // options take BTC/kvB
+int64_t OptInt(const char* k, int64_t dflt) { const UniValue& op = g_uni["opts"]; return op.exists(k) ? op[k].getInt<int64_t>() : dflt; }
+bool OptStd() { const UniValue& op = g_uni["opts"]; return op.exists("std") && op["std"].get_bool(); }
+
+// ---- script classes of outputs. Bare scripts (nonstandard universes): true / fail / nopx / cltv; standard ones: P2WSH(OP_TRUE) "wtrue",
+// P2WSH(OP_DROP OP_TRUE) "wdrop" (one free witness element: a same-txid-different-witness twin), pay-to-anchor "anchor",
+// P2WSH(90 x OP_2DROP, OP_TRUE) "wbig" (180 witness elements: a spend whose memory footprint is four times its virtual size).
+CScript WitnessScriptOf(const std::string& cls)
+{
+    if (cls == "wtrue") return CScript() << OP_TRUE;
+    if (cls == "wdrop") return CScript() << OP_DROP << OP_TRUE;
+    if (cls == "wbig") { CScript s; for (int i = 0; i < 90; ++i) s << OP_2DROP; s << OP_TRUE; return s; }
+    throw std::runtime_error("no witness script for class " + cls);
+}
+CScript P2WSH(const CScript& ws) { uint256 h; CSHA256().Write(ws.data(), ws.size()).Finalize(h.begin()); return CScript() << OP_0 << std::vector<unsigned char>(h.begin(), h.end()); }
+CScript SpkOf(const std::string& cls, size_t t)
+{
+    if (cls == "true") return CScript() << OP_TRUE;
+    if (cls == "opret") return CScript() << OP_RETURN << std::vector<unsigned char>(20, (unsigned char)t);
+    if (cls == "fail") return CScript() << OP_1 << OP_VERIFY << OP_0;
+    if (cls == "nopx") return CScript() << OP_NOP4 << OP_TRUE;        // consensus-valid, rejected by the standard flags
+    if (cls == "cltv") return CScript() << 1000 << OP_CHECKLOCKTIMEVERIFY << OP_DROP << OP_TRUE;   // spender has nLockTime 0
+    if (cls == "wtrue" || cls == "wdrop" || cls == "wbig") return P2WSH(WitnessScriptOf(cls));
+    if (cls == "anchor") return CScript() << OP_1 << std::vector<unsigned char>{0x4e, 0x73};
+    throw std::runtime_error("bad script class " + cls);
+}
 
 std::unique_ptr<ChainSim> MakeBaseSim()
 {
     SimOptions o;
     const UniValue& op = g_uni["opts"];
-    o.args = {"-acceptnonstdtxn=1",                      // bare OP_TRUE outputs and friends: test mempools require standardness otherwise
+    o.args = {std::string("-acceptnonstdtxn=") + (OptStd() ? "0" : "1"),   // bare OP_TRUE outputs and friends need a mempool without the standardness rules
               "-minrelaytxfee=" + PerKvB(op["minrelay"].getInt<int64_t>()),
-              "-incrementalrelayfee=" + PerKvB(op["incr"].getInt<int64_t>())};
+              "-incrementalrelayfee=" + PerKvB(op["incr"].getInt<int64_t>()),
+              "-limitclustercount=" + std::to_string(op["maxcluster"].getInt<int64_t>())};
+    if (OptInt("maxclsize", 0) > 0) o.args.push_back("-limitclustersize=" + std::to_string(OptInt("maxclsize", 0) / 1000));
+    if (OptInt("maxmempool", 0) > 0) o.args.push_back("-maxmempool=" + std::to_string(OptInt("maxmempool", 0) / 1000000));
     auto sim = MakeSim(o);
     const int h0 = g_uni["h0"].getInt<int>();
     const int64_t basedt = g_uni["basedt"].getInt<int64_t>();
-    std::map<int, CAmount> coin_at;   // base height -> coinbase value
-    for (size_t i = 0; i < g_uni["base"].size(); ++i) coin_at[g_uni["base"][i]["h"].getInt<int>()] = g_uni["base"][i]["v"].getInt<int64_t>();
+    std::map<int, std::pair<CAmount, std::string>> coin_at;   // base height -> coinbase value, script class
+    for (size_t i = 0; i < g_uni["base"].size(); ++i) {
+        const UniValue& b = g_uni["base"][i];
+        coin_at[b["h"].getInt<int>()] = {b["v"].getInt<int64_t>(), b.exists("cls") ? b["cls"].get_str() : "key"};
+    }
     const int64_t g = Params().GenesisBlock().nTime;
     g_base = Base{}; g_base.h0 = h0; g_base.basedt = basedt;
     g_base.mock0 = g + (int64_t)h0 * basedt + 100000;   // all block times of a behaviour stay in the past
@@ -43,7 +81,8 @@ std::unique_ptr<ChainSim> MakeBaseSim()
     uint256 prev = Params().GenesisBlock().GetHash();
     for (int h = 1; h <= h0; ++h) {
         ChainSim::BlockSpec s; s.prev = prev; s.height = h; s.time = g + (int64_t)h * basedt; s.extra_nonce = 7;
-        s.cb_value = coin_at.count(h) ? coin_at[h] : 0;
+        s.cb_value = coin_at.count(h) ? coin_at[h].first : 0;
+        if (coin_at.count(h) && coin_at[h].second != "key") s.cb_spk = SpkOf(coin_at[h].second, 0);
         auto b = sim->BuildBlock(s);
         auto [r, nb] = sim->SubmitBlock(b, true);
         if (!r || sim->Tip()->GetBlockHash() != b->GetHash()) throw std::runtime_error("base chain block rejected");
@@ -60,12 +99,23 @@ std::unique_ptr<ChainSim> MakeBaseSim()
     need("incremental relay feerate", mp.m_opts.incremental_relay_feerate.GetFeePerK(), op["incr"].getInt<int64_t>());
     need("expiry", std::chrono::duration_cast<std::chrono::seconds>(mp.m_opts.expiry).count(), op["expiry"].getInt<int64_t>());
     need("cluster count limit", mp.m_opts.limits.cluster_count, op["maxcluster"].getInt<int64_t>());
+    if (OptInt("maxclsize", 0) > 0) need("cluster size limit", mp.m_opts.limits.cluster_size_vbytes, OptInt("maxclsize", 0));
+    if (OptInt("maxmempool", 0) > 0) need("mempool size limit", mp.m_opts.max_size_bytes, OptInt("maxmempool", 0));
     need("check ratio", mp.m_opts.check_ratio, 1);
-    if (mp.m_opts.require_standard) throw std::runtime_error("node requires standard transactions");
+    need("require standard", mp.m_opts.require_standard, OptStd());
     return sim;
 }
 
-struct Blk { uint256 hash; int height; int64_t time; };
+struct Blk { uint256 hash; int height; int64_t time; std::shared_ptr<const CBlock> block; };
+
+// byte offsets of the parts of a mempool.dat file, found by walking it with the serialisation code
+struct FileMap {
+    uint64_t version{0}; int64_t key_end{0}, count_end{0}, deltas_end{0}, size{0}; uint64_t count{0};
+    struct Rec { int64_t start, tx_end, time_end, end; };
+    std::vector<Rec> recs;
+    std::vector<Txid> order;        // txids in file order
+    Obfuscation obf;
+};
 
 struct World {
     std::unique_ptr<ChainSim> sim;
@@ -74,21 +124,26 @@ struct World {
     int64_t mock;
     std::vector<CTransactionRef> txu;      // index = model tx id (1-based)
     std::vector<CAmount> fee;              // fee of each universe tx if all its inputs are known, else 0
-    std::map<Txid, int> ids;
+    std::map<Wtxid, int> ids;              // by wtxid: a same-txid-different-witness twin is a different model transaction
+    std::map<Txid, int> canon;             // txid -> smallest model id with that txid
     std::map<std::pair<int, int>, COutPoint> ops;    // model outpoint -> real outpoint
     std::map<std::pair<int, int>, CTxOut> outs;      // model outpoint -> real output (for signing / values)
+    std::map<std::pair<int, int>, std::string> cls;  // model outpoint -> script class
+    fs::path dump_path;                    // last DumpMempool
+    bool dumped{false};
 
     World()
     {
         sim = MakeBaseSim();
         mock = g_base.mock0;
-        chain.push_back({g_base.tip_hash, g_base.h0, g_base.t0});
+        chain.push_back({g_base.tip_hash, g_base.h0, g_base.t0, nullptr});
         for (size_t i = 0; i < g_uni["base"].size(); ++i) {
-            const auto& cb = g_base.cbs.at(g_uni["base"][i]["h"].getInt<int>());
+            const UniValue& b = g_uni["base"][i];
+            const auto& cb = g_base.cbs.at(b["h"].getInt<int>());
             ops[{0, (int)i + 1}] = COutPoint(cb->GetHash(), 0);
             outs[{0, (int)i + 1}] = cb->vout[0];
+            cls[{0, (int)i + 1}] = b.exists("cls") ? b["cls"].get_str() : "key";
         }
-        ops[{99, 1}] = COutPoint(Txid::FromUint256(uint256{0x99}), 3);
         BuildUniverse();
     }
     CTxMemPool& mp() { return *sim->m_node.mempool; }
@@ -102,48 +157,72 @@ struct World {
         if (k == "time") return CTxIn::SEQUENCE_LOCKTIME_TYPE_FLAG | v;
         throw std::runtime_error("bad seq kind");
     }
+    COutPoint OpOf(const std::pair<int, int>& key)
+    {
+        if (key.first == 99) return COutPoint(Txid::FromUint256(uint256{0x99}), 2 + key.second);   // outputs that never exist
+        return ops.at(key);
+    }
     void BuildUniverse()
     {
         const UniValue& U = g_uni["universe"];
         txu.resize(U.size() + 1); fee.assign(U.size() + 1, 0);
         for (size_t t = 1; t <= U.size(); ++t) {
             const UniValue& T = U[t - 1];
+            const int twin = T.exists("twin") ? T["twin"].getInt<int>() : 0;
             CMutableTransaction m;
-            m.version = T["ver"].getInt<int>();
-            const std::string lk = T["lock"]["kind"].get_str();
-            m.nLockTime = lk == "none" ? 0 : lk == "height" ? (uint32_t)T["lock"]["v"].getInt<int>() : (uint32_t)(g_base.t0 + T["lock"]["v"].getInt<int64_t>());
             bool all_known = true; CAmount in = 0, out = 0;
-            for (size_t j = 0; j < T["ins"].size(); ++j) {
-                const std::pair<int, int> key{T["ins"][j]["op"][0].getInt<int>(), T["ins"][j]["op"][1].getInt<int>()};
-                CTxIn ti(ops.at(key)); ti.nSequence = SeqOf(T["ins"][j]["seq"]);
-                m.vin.push_back(ti);
-                if (outs.count(key)) in += outs[key].nValue; else all_known = false;
-            }
-            for (size_t i = 0; i < T["outs"].size(); ++i) {
-                const std::string cls = T["outs"][i]["cls"].get_str();
-                CScript spk;
-                if (cls == "true") spk = CScript() << OP_TRUE;
-                else if (cls == "opret") spk = CScript() << OP_RETURN << std::vector<unsigned char>(20, (unsigned char)t);
-                else if (cls == "fail") spk = CScript() << OP_1 << OP_VERIFY << OP_0;
-                else if (cls == "nopx") spk = CScript() << OP_NOP4 << OP_TRUE;        // consensus-valid, rejected by the standard flags
-                else if (cls == "cltv") spk = CScript() << 1000 << OP_CHECKLOCKTIMEVERIFY << OP_DROP << OP_TRUE;   // spender has nLockTime 0
-                else throw std::runtime_error("bad script class");
-                m.vout.emplace_back(T["outs"][i]["v"].getInt<int64_t>(), spk);
-                out += T["outs"][i]["v"].getInt<int64_t>();
-            }
-            // distinguishes otherwise identical transactions, keeps them above the 64-byte minimum; "pad" enlarges a transaction
-            const size_t pad = T.exists("pad") ? T["pad"].getInt<int>() : 0;
-            m.vout.emplace_back(0, CScript() << OP_RETURN << std::vector<unsigned char>(30 + pad, (unsigned char)(0xA0 + t)));
-            for (size_t j = 0; j < m.vin.size(); ++j) {
-                const std::pair<int, int> key{T["ins"][j]["op"][0].getInt<int>(), T["ins"][j]["op"][1].getInt<int>()};
-                if (key.first == 0) sim->SignP2PK(m, j, outs.at(key));       // base coins are P2PK
+            if (twin) {
+                // the same transaction as <twin> except for the free witness element of its "wdrop" inputs
+                if (twin >= (int)t) throw std::runtime_error("a twin must follow its original");
+                m = CMutableTransaction(*txu[twin]);
+                bool changed = false;
+                for (auto& ti : m.vin) if (ti.scriptWitness.stack.size() == 2 && ti.scriptWitness.stack[0].size() == 1) { ti.scriptWitness.stack[0][0] ^= 0x03; changed = true; }
+                if (!changed) throw std::runtime_error("a twin needs an input of class wdrop");
+                fee[t] = fee[twin];
+            } else {
+                m.version = T["ver"].getInt<int>();
+                const std::string lk = T["lock"]["kind"].get_str();
+                m.nLockTime = lk == "none" ? 0 : lk == "height" ? (uint32_t)T["lock"]["v"].getInt<int>() : (uint32_t)(g_base.t0 + T["lock"]["v"].getInt<int64_t>());
+                for (size_t j = 0; j < T["ins"].size(); ++j) {
+                    const std::pair<int, int> key{T["ins"][j]["op"][0].getInt<int>(), T["ins"][j]["op"][1].getInt<int>()};
+                    CTxIn ti(OpOf(key)); ti.nSequence = SeqOf(T["ins"][j]["seq"]);
+                    m.vin.push_back(ti);
+                    if (outs.count(key)) in += outs[key].nValue; else all_known = false;
+                }
+                for (size_t i = 0; i < T["outs"].size(); ++i) {
+                    const std::string oc = T["outs"][i]["cls"].get_str();
+                    m.vout.emplace_back(T["outs"][i]["v"].getInt<int64_t>(), oc == "key" ? sim->coinbaseSpk : SpkOf(oc, t));   // "key": P2PK, the spender is signed
+                    out += T["outs"][i]["v"].getInt<int64_t>();
+                }
+                // distinguishes otherwise identical transactions, keeps them above the 64-byte minimum; "pad" enlarges a transaction
+                const size_t pad = T.exists("pad") ? T["pad"].getInt<int>() : 0;
+                m.vout.emplace_back(0, CScript() << OP_RETURN << std::vector<unsigned char>(30 + pad, (unsigned char)(0xA0 + t)));
+                const size_t wpad = T.exists("wpad") ? T["wpad"].getInt<int>() : 0;
+                for (size_t j = 0; j < m.vin.size(); ++j) {
+                    const std::pair<int, int> key{T["ins"][j]["op"][0].getInt<int>(), T["ins"][j]["op"][1].getInt<int>()};
+                    const std::string c = cls.count(key) ? cls[key] : "true";
+                    if (c == "key") continue;
+                    if (c == "wtrue") m.vin[j].scriptWitness.stack = {ToByteVector(WitnessScriptOf(c))};
+                    else if (c == "wdrop") m.vin[j].scriptWitness.stack = {{0x01}, ToByteVector(WitnessScriptOf(c))};
+                    else if (c == "wbig") {
+                        for (int k = 0; k < 180; ++k) m.vin[j].scriptWitness.stack.push_back(std::vector<unsigned char>(wpad, (unsigned char)k));
+                        m.vin[j].scriptWitness.stack.push_back(ToByteVector(WitnessScriptOf(c)));
+                    }
+                }
+                for (size_t j = 0; j < m.vin.size(); ++j) {
+                    const std::pair<int, int> key{T["ins"][j]["op"][0].getInt<int>(), T["ins"][j]["op"][1].getInt<int>()};
+                    if (cls.count(key) && cls[key] == "key") sim->SignP2PK(m, j, outs.at(key));       // base coins are P2PK unless stated otherwise
+                }
+                fee[t] = all_known ? in - out : 0;
             }
             txu[t] = MakeTransactionRef(m);
-            ids[txu[t]->GetHash()] = (int)t;
-            fee[t] = all_known ? in - out : 0;
-            for (size_t i = 0; i < T["outs"].size(); ++i) {
+            if (ids.count(txu[t]->GetWitnessHash())) throw std::runtime_error("two universe transactions are identical");
+            ids[txu[t]->GetWitnessHash()] = (int)t;
+            if (!canon.count(txu[t]->GetHash())) canon[txu[t]->GetHash()] = (int)t;
+            if (!twin) for (size_t i = 0; i < T["outs"].size(); ++i) {
                 ops[{(int)t, (int)i + 1}] = COutPoint(txu[t]->GetHash(), i);
                 outs[{(int)t, (int)i + 1}] = txu[t]->vout[i];
+                cls[{(int)t, (int)i + 1}] = T["outs"][i]["cls"].get_str();
             }
         }
     }
@@ -155,6 +234,7 @@ struct World {
         if (why.rfind("block-script-verify-flag-failed", 0) == 0) return "consensus-script-failed";
         if (why.rfind("insufficient fee", 0) == 0) return "insufficient fee";
         if (why.rfind("too many potential replacements", 0) == 0) return "too many potential replacements";
+        if (why.rfind("package RBF failed: insufficient feerate", 0) == 0) return "package RBF failed: replacement-failed";
         return why;
     }
     UniValue Result(bool ok, const std::string& why, const std::set<int>& ev, bool pure)
@@ -164,7 +244,7 @@ struct World {
     std::shared_ptr<CBlock> MakeBlock(const Blk& parent, const UniValue& list, int64_t dt)
     {
         ChainSim::BlockSpec s; s.prev = parent.hash; s.height = parent.height + 1; s.time = parent.time + dt; s.extra_nonce = ++nblocks;
-        for (size_t i = 0; i < list.size(); ++i) s.txs.push_back(txu.at(list[i].getInt<int>()));
+        for (size_t i = 0; i < list.size(); ++i) { s.txs.push_back(txu.at(list[i].getInt<int>())); if (s.txs.back()->HasWitness()) s.witness_commitment = true; }
         s.cb_value = 0;
         return sim->BuildBlock(s);
     }
@@ -177,10 +257,124 @@ struct World {
         if (expect_tip && sim->Tip()->GetBlockHash() != b->GetHash()) return "not-activated";
         return "";
     }
+    int IdOf(const CTransaction& tx) { auto it = ids.find(tx.GetWitnessHash()); return it == ids.end() ? -1 : it->second; }
+    int IdOfWtxid(const Wtxid& w) { auto it = ids.find(w); return it == ids.end() ? -1 : it->second; }
+
+    // ---- mempool.dat
+    static FileMap WalkFile(const fs::path& p)
+    {
+        FileMap fm;
+        AutoFile f{fsbridge::fopen(p, "rb")};
+        if (f.IsNull()) throw std::runtime_error("cannot open the dumped mempool file");
+        fm.size = f.size();
+        f >> fm.version;
+        if (fm.version == 2) { f >> fm.obf; f.SetObfuscation(fm.obf); }
+        else if (fm.version != 1) throw std::runtime_error("dumped file has an unknown version");
+        fm.key_end = f.tell();
+        f >> fm.count; fm.count_end = f.tell();
+        for (uint64_t i = 0; i < fm.count; ++i) {
+            FileMap::Rec r; r.start = f.tell();
+            CTransactionRef tx; int64_t t, d;
+            f >> TX_WITH_WITNESS(tx); r.tx_end = f.tell();
+            f >> t; r.time_end = f.tell();
+            f >> d; r.end = f.tell();
+            fm.recs.push_back(r); fm.order.push_back(tx->GetHash());
+        }
+        std::map<Txid, CAmount> deltas; f >> deltas; fm.deltas_end = f.tell();
+        std::set<Txid> unb; f >> unb;
+        if (f.tell() != fm.size) throw std::runtime_error("dumped file has trailing bytes");
+        return fm;
+    }
+    static std::vector<unsigned char> ReadAll(const fs::path& p)
+    {
+        std::ifstream f(fs::PathToString(p), std::ios::binary); return std::vector<unsigned char>((std::istreambuf_iterator<char>(f)), std::istreambuf_iterator<char>());
+    }
+    static void WriteAll(const fs::path& p, const std::vector<unsigned char>& v)
+    {
+        std::ofstream f(fs::PathToString(p), std::ios::binary | std::ios::trunc); f.write((const char*)v.data(), v.size());
+    }
+    // the file as the loading node finds it: truncated at a record boundary / inside a record, or with a framing field changed
+    std::vector<unsigned char> Damage(const UniValue& cut, const FileMap& fm, std::vector<unsigned char> bytes)
+    {
+        const std::string kind = cut["kind"].get_str();
+        const int64_t k = cut.exists("k") ? cut["k"].getInt<int64_t>() : 0;
+        const std::string sub = cut.exists("sub") ? cut["sub"].get_str() : "at";
+        auto set64 = [&](int64_t off, uint64_t oldv, uint64_t newv, bool obfuscated) {
+            // a field of the obfuscated part is rewritten by XORing the difference into the stored bytes (XOR is linear)
+            for (int i = 0; i < 8; ++i) { const unsigned char o = (oldv >> (8 * i)) & 0xff, n = (newv >> (8 * i)) & 0xff; if (obfuscated) bytes[off + i] ^= (o ^ n); else bytes[off + i] = n; }
+        };
+        if (kind == "none") return bytes;
+        if (kind == "hdr") {
+            // inside the version, inside the key, inside the count
+            bytes.resize(sub == "ver" ? 4 : sub == "key" ? 12 : fm.key_end + 3);
+        } else if (kind == "rec") {
+            if (k > (int64_t)fm.recs.size()) throw std::runtime_error("cut beyond the last record");
+            if (k == (int64_t)fm.recs.size()) { if (sub != "at") throw std::runtime_error("no record to cut"); bytes.resize(fm.count_end + (fm.recs.empty() ? 0 : fm.recs.back().end - fm.count_end)); }
+            else {
+                const auto& r = fm.recs[k];
+                bytes.resize(sub == "at" ? r.start : sub == "tx" ? (r.start + r.tx_end) / 2 : sub == "time" ? r.tx_end + 4 : r.time_end + 4);
+            }
+        } else if (kind == "deltas") {
+            // inside the map of stray prioritisations (after its length byte)
+            const int64_t start = fm.recs.empty() ? fm.count_end : fm.recs.back().end;
+            if (fm.deltas_end - start < 2) throw std::runtime_error("the file has no stray prioritisation to cut");
+            bytes.resize(start + (fm.deltas_end - start) / 2);
+        } else if (kind == "unb") {
+            // "at": between the prioritisations and the unbroadcast set; "mid": inside the set
+            if (sub == "at") bytes.resize(fm.deltas_end);
+            else { if (fm.size - fm.deltas_end < 2) throw std::runtime_error("the file has no unbroadcast entry to cut"); bytes.resize(fm.deltas_end + (fm.size - fm.deltas_end) / 2); }
+        } else if (kind == "badver") {
+            set64(0, fm.version, 3, false);
+        } else if (kind == "ver1") {
+            set64(0, fm.version, 1, false);              // the key is then read as data
+        } else if (kind == "keyflip") {
+            bytes[fm.key_end - 3] ^= 0x40;
+        } else if (kind == "count") {
+            set64(fm.key_end, fm.count, fm.count + k, fm.version == 2);
+        } else if (kind == "flip") {
+            // k = seed: three byte flips at seeded positions
+            FastRandomContext rng{uint256{(uint8_t)(k & 0xff)}};
+            for (int i = 0; i < 3; ++i) bytes[rng.randrange(bytes.size())] ^= (unsigned char)(1 + rng.randrange(255));
+        } else throw std::runtime_error("unknown cut " + kind);
+        return bytes;
+    }
+    // a second node on the same chain replaces the first one (both cannot live in one process): the blocks of the active chain are
+    // delivered to it, `exist` is submitted normally, then LoadMempool reads the (possibly damaged) file
+    UniValue RestartAndLoad(const UniValue& cut, const UniValue& exist, bool& ok, std::string& why)
+    {
+        if (!dumped) throw std::runtime_error("load without a dump");
+        const FileMap fm = WalkFile(dump_path);
+        // saved order: parents before children
+        {
+            std::set<Txid> seen;
+            for (const auto& id : fm.order) {
+                const auto& tx = txu.at(canon.at(id));
+                for (const auto& in : tx->vin) if (canon.count(in.prevout.hash) && std::find(fm.order.begin(), fm.order.end(), in.prevout.hash) != fm.order.end() && !seen.count(in.prevout.hash)) why = "file-order-not-topological";
+                seen.insert(id);
+            }
+        }
+        const fs::path damaged = dump_path.parent_path() / "mempool_damaged.dat";
+        WriteAll(damaged, Damage(cut, fm, ReadAll(dump_path)));
+        std::vector<std::shared_ptr<const CBlock>> blocks;
+        for (size_t i = 1; i < chain.size(); ++i) blocks.push_back(chain[i].block);
+        sim.reset();
+        sim = MakeBaseSim();
+        SetMockTime(mock);
+        for (const auto& b : blocks) { sim->SubmitBlock(b, true); if (sim->Tip()->GetBlockHash() != b->GetHash()) throw std::runtime_error("second node did not follow the chain"); }
+        for (size_t i = 0; i < exist.size(); ++i) { LOCK(cs_main); sim->cm().ProcessTransaction(txu.at(exist[i].getInt<int>()), false); }
+        UniValue before = Project();
+        ok = node::LoadMempool(mp(), damaged, sim->cm().ActiveChainstate(), {});
+        if (why == "none") why = ok ? "ok" : "failed";
+        UniValue order(UniValue::VARR);
+        for (const auto& id : fm.order) order.push_back(canon.count(id) ? canon[id] : -1);
+        return Obj({{"before", before["obs"]}, {"order", order}});
+    }
+
     UniValue Apply(const UniValue& a)
     {
         const std::string op = a[0].get_str();
         std::string why = "none"; bool ok = true; std::set<int> ev; bool pure = true;
+        UniValue extra(UniValue::VNULL);
         if (op == "submit" || op == "test") {
             const bool test = op == "test";
             const int t = a[1].getInt<int>();
@@ -189,7 +383,7 @@ struct World {
             const MempoolAcceptResult res = WITH_LOCK(cs_main, return sim->cm().ProcessTransaction(txu.at(t), test));
             ok = res.m_result_type == MempoolAcceptResult::ResultType::VALID;
             why = ok ? "ok" : NormReason(res.m_state.GetRejectReason());
-            if (ok) for (const auto& r : res.m_replaced_transactions) { auto it = ids.find(r->GetHash()); ev.insert(it == ids.end() ? -1 : it->second); }
+            if (ok) for (const auto& r : res.m_replaced_transactions) ev.insert(IdOf(*r));
             if (test) {
                 // side-effect freedom: same content (txids, fees, prioritisation, links, totals), same mempool sequence number, same update counter
                 const std::string after = Project().write();
@@ -200,20 +394,59 @@ struct World {
             // C28 directly on the code: test-accept, then submit, from the same state; result = both verdicts
             const int t = a[1].getInt<int>();
             const std::string before = Project().write();
+            // would the pool, with this transaction added, exceed its limit? (C28 exempts a full mempool, nothing else)
+            const CTxMemPoolEntry e{txu.at(t), 0, 0, 1, 0, false, 0, LockPoints{}};
+            const int64_t usage0 = (int64_t)mp().DynamicMemoryUsage();
+            const bool full = usage0 + (int64_t)e.DynamicMemoryUsage() + 4096 > mp().m_opts.max_size_bytes;
             const MempoolAcceptResult r1 = WITH_LOCK(cs_main, return sim->cm().ProcessTransaction(txu.at(t), true));
             const bool same_state = before == Project().write();
             const MempoolAcceptResult r2 = WITH_LOCK(cs_main, return sim->cm().ProcessTransaction(txu.at(t), false));
             const bool ok1 = r1.m_result_type == MempoolAcceptResult::ResultType::VALID, ok2 = r2.m_result_type == MempoolAcceptResult::ResultType::VALID;
             const std::string w1 = ok1 ? "ok" : NormReason(r1.m_state.GetRejectReason()), w2 = ok2 ? "ok" : NormReason(r2.m_state.GetRejectReason());
-            // "mempool full" is the one verdict only a real submission can produce (LimitMempoolSize runs after the acceptance)
-            const bool agree = (ok1 == ok2 && w1 == w2) || (ok1 && w2 == "mempool full");
-            return Obj({{"agree", agree}, {"pure", same_state}, {"verdicts", "test-accept: " + w1 + " / submit: " + w2}});
+            // "mempool full" is the one verdict only a real submission can produce (LimitMempoolSize runs after the acceptance); the
+            // property exempts it when the mempool is full - not when the pool is far from its limit and merely expired an ancestor
+            const bool agree = (ok1 == ok2 && w1 == w2) || (ok1 && w2 == "mempool full" && full);
+            return Obj({{"agree", agree}, {"pure", same_state},
+                        {"verdicts", "test-accept: " + w1 + " / submit: " + w2 + strprintf(" (usage %d of %d bytes)", usage0, mp().m_opts.max_size_bytes)}});
+        } else if (op == "pkg") {
+            // ProcessNewPackage; result: package verdict + per position the kind of result reported for that transaction
+            Package pkg;
+            for (size_t i = 0; i < a[1].size(); ++i) pkg.push_back(txu.at(a[1][i].getInt<int>()));
+            const PackageMempoolAcceptResult res = WITH_LOCK(cs_main, return ProcessNewPackage(sim->cm().ActiveChainstate(), mp(), pkg, /*test_accept=*/false, /*client_maxfeerate=*/std::nullopt));
+            ok = res.m_state.IsValid();
+            why = ok ? "ok" : NormReason(res.m_state.GetRejectReason());
+            UniValue txr(UniValue::VARR);
+            for (const auto& tx : pkg) {
+                auto it = res.m_tx_results.find(tx->GetWitnessHash());
+                if (it == res.m_tx_results.end()) { txr.push_back(Obj({{"k", "none"}, {"why", "none"}})); continue; }
+                const MempoolAcceptResult& r = it->second;
+                switch (r.m_result_type) {
+                case MempoolAcceptResult::ResultType::VALID:
+                    txr.push_back(Obj({{"k", "valid"}, {"why", "ok"}}));
+                    for (const auto& x : r.m_replaced_transactions) ev.insert(IdOf(*x));
+                    break;
+                case MempoolAcceptResult::ResultType::INVALID: txr.push_back(Obj({{"k", "invalid"}, {"why", NormReason(r.m_state.GetRejectReason())}})); break;
+                case MempoolAcceptResult::ResultType::MEMPOOL_ENTRY: txr.push_back(Obj({{"k", "entry"}, {"why", "ok"}})); break;
+                case MempoolAcceptResult::ResultType::DIFFERENT_WITNESS:
+                    txr.push_back(Obj({{"k", "diffwit"}, {"why", "ok"}, {"other", IdOfWtxid(*r.m_other_wtxid)}}));
+                    break;
+                }
+            }
+            extra = txr;
+        } else if (op == "prefill") {
+            // a fixed sequence of submissions (fills the pool close to its limit); all must be accepted
+            for (size_t i = 0; i < a[1].size(); ++i) {
+                const MempoolAcceptResult res = WITH_LOCK(cs_main, return sim->cm().ProcessTransaction(txu.at(a[1][i].getInt<int>()), false));
+                if (res.m_result_type != MempoolAcceptResult::ResultType::VALID) { ok = false; why = "prefill:" + NormReason(res.m_state.GetRejectReason()); break; }
+            }
         } else if (op == "prio") {
             mp().PrioritiseTransaction(txu.at(a[1].getInt<int>())->GetHash(), a[2].getInt<int64_t>());
+        } else if (op == "unb") {
+            mp().AddUnbroadcastTx(txu.at(a[1].getInt<int>())->GetHash());
         } else if (op == "mine") {
             auto b = MakeBlock(chain.back(), a[1], a[2].getInt<int64_t>());
             const std::string r = Deliver(b, true);
-            if (r.empty()) chain.push_back({b->GetHash(), chain.back().height + 1, (int64_t)b->nTime}); else { ok = false; why = r; }
+            if (r.empty()) chain.push_back({b->GetHash(), chain.back().height + 1, (int64_t)b->nTime, b}); else { ok = false; why = r; }
         } else if (op == "disconnect") {
             if (chain.size() < 2) throw std::runtime_error("disconnect below the base tip");
             sim->Invalidate(chain.back().hash);
@@ -224,37 +457,51 @@ struct World {
             const Blk parent = chain[chain.size() - 2];
             auto A = MakeBlock(parent, a[1], a[3].getInt<int64_t>());
             std::string r = Deliver(A, false);
-            const Blk ba{A->GetHash(), parent.height + 1, (int64_t)A->nTime};
+            const Blk ba{A->GetHash(), parent.height + 1, (int64_t)A->nTime, A};
             auto B = MakeBlock(ba, a[2], a[3].getInt<int64_t>());
             if (r.empty()) r = Deliver(B, true);
-            if (r.empty()) { chain.pop_back(); chain.push_back(ba); chain.push_back({B->GetHash(), ba.height + 1, (int64_t)B->nTime}); } else { ok = false; why = r; }
+            if (r.empty()) { chain.pop_back(); chain.push_back(ba); chain.push_back({B->GetHash(), ba.height + 1, (int64_t)B->nTime, B}); } else { ok = false; why = r; }
         } else if (op == "tick") {
             mock += a[1].getInt<int64_t>(); SetMockTime(mock);
         } else if (op == "expire") {
             LOCK2(cs_main, mp().cs);
             mp().Expire(GetTime<std::chrono::seconds>() - mp().m_opts.expiry);
+        } else if (op == "dump") {
+            const char* tmp = std::getenv("TMPDIR");
+            static int n = 0;
+            const fs::path dir = fs::PathFromString(std::string(tmp ? tmp : ".") + "/mpdump-" + std::to_string(getpid()) + "-" + std::to_string(++n));
+            fs::create_directories(dir);
+            dump_path = dir / "mempool.dat";
+            ok = node::DumpMempool(mp(), dump_path);
+            why = ok ? "ok" : "failed";
+            dumped = ok;
+        } else if (op == "load") {
+            extra = RestartAndLoad(a[1], a[2], ok, why);
         } else throw std::runtime_error("unknown op " + op);
         {
             // the code's own consistency checker (check_ratio = 1): an assertion in there ends the process inside this step
             LOCK(cs_main);
             mp().check(sim->cm().ActiveChainstate().CoinsTip(), sim->cm().ActiveChain().Height() + 1);
         }
-        return Result(ok, why, ev, pure);
+        UniValue r = Result(ok, why, ev, pure);
+        if (op == "pkg") r.pushKV("txr", extra);
+        if (op == "load") r.pushKV("@load", extra);       // not predicted: the pool of the second node before the load, the file's order
+        return r;
     }
-    int IdOf(const CTransaction& tx) { auto it = ids.find(tx.GetHash()); return it == ids.end() ? -1 : it->second; }
     UniValue Project()
     {
         LOCK(cs_main);
         auto& cm = sim->cm();
-        std::set<int> pool;
+        std::set<int> pool, unb;
         std::map<int, UniValue> entries;
-        UniValue deltas(UniValue::VARR);
+        UniValue deltas(UniValue::VARR), times(UniValue::VARR);
+        int strays = 0;
         {
             std::map<int, int64_t> dl;
-            for (const auto& d : mp().GetPrioritisedTransactions()) { auto it = ids.find(d.txid); dl[it == ids.end() ? -1 : it->second] = d.delta; }
+            for (const auto& d : mp().GetPrioritisedTransactions()) { auto it = canon.find(d.txid); if (it == canon.end()) ++strays; else dl[it->second] = d.delta; }
             for (auto& [t, d] : dl) deltas.push_back(Obj({{"t", t}, {"d", d}}));
         }
-        uint64_t tsize; CAmount tfee;
+        uint64_t tsize; CAmount tfee; int64_t usage, minfee;
         {
             LOCK(mp().cs);
             for (const auto& e : mp().entryAll()) {
@@ -266,38 +513,108 @@ struct World {
                 for (const auto& c : mp().GetChildren(en)) chi.insert(IdOf(c.get().GetTx()));
                 entries[t] = Obj({{"t", t}, {"fee", (int64_t)en.GetFee()}, {"mfee", (int64_t)en.GetModifiedFee()}, {"vsize", (int64_t)en.GetTxSize()},
                                   {"parents", SortedIntArr(par)}, {"children", SortedIntArr(chi)}});
+                if (mp().IsUnbroadcastTx(en.GetTx().GetHash())) unb.insert(t);
             }
             tsize = mp().GetTotalTxSize(); tfee = mp().GetTotalFee();
+            usage = (int64_t)mp().DynamicMemoryUsage();
+            minfee = mp().GetMinFee().GetFeePerK();
         }
+        std::map<int, int64_t> tm;
+        for (const auto& i : mp().infoAll()) tm[IdOf(*i.tx)] = count_seconds(i.m_time) - g_base.mock0;
+        for (auto& [t, s] : tm) times.push_back(Obj({{"t", t}, {"time", s}}));
         UniValue el(UniValue::VARR);
         for (auto& [t, v] : entries) el.push_back(v);
         // the UTXO set restricted to the universe: base coins and every universe output
         auto& view = cm.ActiveChainstate().CoinsTip();
         UniValue ul(UniValue::VARR);
         for (auto& [key, op] : ops) {
-            if (key.first == 99) continue;
             auto c = view.GetCoin(op);
             if (!c) continue;
             ul.push_back(Obj({{"t", key.first}, {"i", key.second}, {"v", (int64_t)c->out.nValue}, {"h", (int)c->nHeight}, {"cb", c->IsCoinBase()}}));
         }
         UniValue obs = Obj({{"pool", SortedIntArr(pool)}, {"entries", el}, {"deltas", deltas}, {"tsize", (int64_t)tsize}, {"tfee", (int64_t)tfee},
-                            {"height", cm.ActiveChain().Height()}, {"utxo", ul}});
+                            {"height", cm.ActiveChain().Height()}, {"utxo", ul},
+                            // C27 / C55 observables (compared only where the scenario predicts them)
+                            {"usage", usage}, {"maxusage", (int64_t)mp().m_opts.max_size_bytes}, {"minfee", minfee},
+                            {"unb", SortedIntArr(unb)}, {"times", times}, {"strays", strays}});
         return Obj({{"obs", obs}});
     }
 };
+
+void RunSteps(World& w, const UniValue& st, bool strict)
+{
+    int64_t max_usage = 0, limit = 0;
+    for (size_t i = 0; i < st.size(); ++i) {
+        R().cur_step = i; R().cur_action = st[i]["a"];
+        std::string why, rdiff, sdiff;
+        UniValue res, have;
+        try { res = w.Apply(st[i]["a"]); have = w.Project(); }
+        catch (const std::exception& e) { why = std::string("exception: ") + e.what(); }
+        ++R().steps;
+        if (!why.empty()) { R().Mismatch(st[i]["a"], why); break; }
+        max_usage = std::max(max_usage, have["obs"]["usage"].getInt<int64_t>()); limit = have["obs"]["maxusage"].getInt<int64_t>();
+        if (st[i].exists("r") && !st[i]["r"].isNull()) rdiff = JsonDiff(st[i]["r"], res, "result");
+        if (st[i].exists("exp") && !st[i]["exp"].isNull()) sdiff = JsonDiff(st[i]["exp"], have, "state");
+        if (rdiff.empty() && sdiff.empty()) continue;
+        if (strict) { R().Mismatch(st[i]["a"], rdiff.empty() ? sdiff : rdiff + (res.exists("verdicts") ? " (" + res["verdicts"].get_str() + ")" : "")); break; }
+        have.pushKV("@result", res);
+        R().Deviation(st[i]["a"], sdiff.empty() ? rdiff : sdiff, have);
+        if (!sdiff.empty()) break;
+    }
+    // C27: the node's memory usage after every step of this test, against its limit (judged by the driver)
+    if (!strict && limit > 0) Emit(Obj({{"kind", "info"}, {"test", (int64_t)R().cur_test}, {"max_usage", max_usage}, {"limit", limit}}));
+}
 } // namespace
 
 int main(int argc, char** argv)
 {
-    if (argc < 4) { std::cerr << "usage: mempool measure|replay|strict <tests> <universe.json>\n"; return 2; }
+    if (argc < 4) { std::cerr << "usage: mempool measure|replay|strict|pkgtable|loadfuzz <tests> <universe.json>\n"; return 2; }
     { std::ifstream f(argv[3]); std::stringstream ss; ss << f.rdbuf(); if (!g_uni.read(ss.str())) { std::cerr << "bad universe\n"; return 2; } }
     const std::string mode = argv[1];
     if (mode == "measure") {
         World w;
+        const CFeeRate dust_rate = w.mp().m_opts.dust_relay_feerate;
         for (size_t t = 1; t < w.txu.size(); ++t) {
-            Emit(Obj({{"fee", (int64_t)w.fee[t]}, {"vsize", (int64_t)GetVirtualTransactionSize(*w.txu[t])}, {"weight", (int64_t)GetTransactionWeight(*w.txu[t])}}));
+            const CTransaction& tx = *w.txu[t];
+            // memory the entry adds to CTxMemPool::DynamicMemoryUsage: the entry's own dynamic usage + its node in the index
+            const CTxMemPoolEntry e{w.txu[t], 0, 0, 1, 0, false, 0, LockPoints{}};
+            const int64_t mem = (int64_t)e.DynamicMemoryUsage() + (int64_t)memusage::MallocUsage(sizeof(CTxMemPoolEntry) + 9 * sizeof(void*));
+            UniValue dust(UniValue::VARR), thr(UniValue::VARR);
+            for (uint32_t i : GetDust(tx, dust_rate)) if (i + 1 < tx.vout.size()) dust.push_back((int)i + 1);
+            for (size_t i = 0; i + 1 < tx.vout.size(); ++i) thr.push_back((int64_t)GetDustThreshold(tx.vout[i], dust_rate));
+            Emit(Obj({{"fee", (int64_t)w.fee[t]}, {"vsize", (int64_t)GetVirtualTransactionSize(tx)}, {"weight", (int64_t)GetTransactionWeight(tx)},
+                      {"mem", mem}, {"dust", dust}, {"dustlimit", thr}}));
         }
         return 0;
+    }
+    if (mode == "pkgtable") {
+        // E4 rows {pkg:[ids], wf: reason|"ok", cwp, topo, cons}: the context-free package predicates on the real transactions
+        World w;
+        return TableMain(argv[2], [&](const UniValue& row) -> std::string {
+            Package pkg;
+            for (size_t i = 0; i < row["pkg"].size(); ++i) pkg.push_back(w.txu.at(row["pkg"][i].getInt<int>()));
+            PackageValidationState st;
+            const bool wf = IsWellFormedPackage(pkg, st);
+            const std::string why = wf ? "ok" : st.GetRejectReason();
+            if (wf != st.IsValid()) return "IsWellFormedPackage returned " + std::to_string(wf) + " with state " + st.ToString();
+            // SAFE mode (the property is one-directional: "evaluated only if"): a predicate that holds where the specification's does
+            // not is a mismatch; one that is stricter, or a different reason for the same refusal, is counted and tolerated
+            const bool spec_wf = row["wf"].get_str() == "ok";
+            if (wf && !spec_wf) return "IsWellFormedPackage accepts, specification: " + row["wf"].get_str();
+            if (!wf && spec_wf) R().Count("conservative_rows"); else if (why != row["wf"].get_str()) R().Count("other_reason_rows");
+            // (IsTopoSortedPackage documents distinct txids as its precondition: IsWellFormedPackage checks duplicates first)
+            if (!row["dup"].get_bool()) {
+                const bool topo = IsTopoSortedPackage(pkg);
+                if (topo && !row["topo"].get_bool()) return "IsTopoSortedPackage holds, specification: not sorted";
+                if (!topo && row["topo"].get_bool()) R().Count("conservative_rows");
+            }
+            const bool cons = IsConsistentPackage(pkg), cwp = IsChildWithParents(pkg);
+            if (cons && !row["cons"].get_bool()) return "IsConsistentPackage holds, specification: conflict in package";
+            if (!cons && row["cons"].get_bool()) R().Count("conservative_rows");
+            if (cwp && !row["cwp"].get_bool()) return "IsChildWithParents holds, specification: not a child with its parents";
+            if (!cwp && row["cwp"].get_bool()) R().Count("conservative_rows");
+            return "";
+        });
     }
     if (mode == "replay" || mode == "strict") {
         // Own replay loop (vfh::ReplayMain stops a test at its first deviation). "replay": every difference from the prediction is a
@@ -309,22 +626,28 @@ int main(int argc, char** argv)
         ForEachLine(argv[2], [&](size_t n, const UniValue& t) {
             R().cur_test = n; R().cur_step = 0; R().cur_action = UniValue::VNULL;
             auto w = std::make_unique<World>();
-            const UniValue& st = t["steps"];
-            for (size_t i = 0; i < st.size(); ++i) {
-                R().cur_step = i; R().cur_action = st[i]["a"];
-                std::string why, rdiff, sdiff;
-                UniValue res, have;
-                try { res = w->Apply(st[i]["a"]); have = w->Project(); }
-                catch (const std::exception& e) { why = std::string("exception: ") + e.what(); }
+            RunSteps(*w, t["steps"], strict);
+            ++R().tests;
+        });
+        R().Summary();
+        return 0;
+    }
+    if (mode == "loadfuzz") {
+        // each test: {steps: [...up to and including a dump], exist: [ids], seeds: [..]}: for every seed the dump is reloaded by a
+        // fresh node after three seeded byte flips; one "info" line per load: pool before, pool after, return value
+        InstallAbortHandlers();
+        ForEachLine(argv[2], [&](size_t n, const UniValue& t) {
+            R().cur_test = n;
+            for (size_t s = 0; s < t["seeds"].size(); ++s) {
+                auto w = std::make_unique<World>();
+                RunSteps(*w, t["steps"], true);
+                R().cur_step = t["steps"].size(); R().cur_action = Arr({UniValue("load"), t["seeds"][s]});
+                UniValue cut = Obj({{"kind", "flip"}, {"k", t["seeds"][s]}});
+                UniValue a(UniValue::VARR); a.push_back("load"); a.push_back(cut); a.push_back(t["exist"]);
+                UniValue res = w->Apply(a);
+                UniValue o = Obj({{"kind", "info"}, {"test", (int64_t)n}, {"seed", t["seeds"][s]}, {"result", res}, {"post", w->Project()["obs"]}});
+                Emit(o);
                 ++R().steps;
-                if (!why.empty()) { R().Mismatch(st[i]["a"], why); break; }
-                if (st[i].exists("r") && !st[i]["r"].isNull()) rdiff = JsonDiff(st[i]["r"], res, "result");
-                if (st[i].exists("exp") && !st[i]["exp"].isNull()) sdiff = JsonDiff(st[i]["exp"], have, "state");
-                if (rdiff.empty() && sdiff.empty()) continue;
-                if (strict) { R().Mismatch(st[i]["a"], rdiff.empty() ? sdiff : rdiff + (res.exists("verdicts") ? " (" + res["verdicts"].get_str() + ")" : "")); break; }
-                have.pushKV("@result", res);
-                R().Deviation(st[i]["a"], sdiff.empty() ? rdiff : sdiff, have);
-                if (!sdiff.empty()) break;
             }
             ++R().tests;
         });
